@@ -1,5 +1,6 @@
 import PytmeModel.Model.C13
 import PytmeModel.Proofs.Common
+import PytmeModel.Proofs.DftRoundTrip
 import Mathlib.Tactic.Ring
 import Mathlib.Tactic.Linarith
 
@@ -256,5 +257,16 @@ example : centerStart 9 4 = 2 ∧ centerStop 9 4 = 6 := by decide
 example : centeredBox [9, 6, 5] [4, 6, 2] = [(2, 6), (0, 6), (1, 3)] := by decide
 example : convCrop .same 16 10 5 = some (3, 10) := by decide
 example : (centeredMask (⟨[4], #[5,6,7,8]⟩ : Arr Int) [2]).toList = [0,6,7,0] := by decide
+
+/-! ## the transform pair the helpers plan for is an inverse pair (exact arithmetic, every shape) -/
+
+/-- **Round trip of the planned transform, for every shape, parity and dimension.**  For the separable n-D DFT on a box
+(primitive root of unity and invertible length per axis — ℂ), the un-normalised inverse transform of the transform
+returns `|box| ·` the array at every voxel: what `irfftn(rfftn(x)) = x` means before rounding, for odd and even
+extents alike.  (That pyFFTW computes this pair, and the half-spectrum storage of `rfftn`, are exercised by Leg B.) -/
+theorem fft_roundtrip_nd {K : Type} [Field K] (Ns : List Nat) (ωs : List K) (hp : Pm.C01.RootsPrim Ns ωs)
+    (F : List Int → K) (js : List Nat) (hjs : inShape Ns js = true) :
+    Pm.C01.idftS Ns ωs (fun ks => Pm.C01.dftS Ns ωs F ks) js = Pm.C01.boxCard Ns * F (Pm.C01.natsToInts js) :=
+  Pm.C01.idftS_dftS Ns ωs hp F js hjs
 
 end Pm.C13
